@@ -30,9 +30,22 @@ type Variant struct {
 	When     int           `json:"-"`         // at which states the search evaluates the variant (main.go)
 }
 
-func (v Variant) key() string {
-	k := v.Name
-	return k
+// class is the coarse call class used in violation keys (a defect shows under
+// one key per class, not one per variant).
+func (v Variant) class() string {
+	switch {
+	case v.Filter != -1:
+		return "child-filter"
+	case v.Withhold >= 0 && v.IgnMiss:
+		return "ignore-missing-children"
+	case v.Withhold >= 0:
+		return "history-withheld"
+	case v.IgnInc:
+		return "ignore-inconsistency"
+	case v.SetThr:
+		return "threshold-option"
+	}
+	return "default-options"
 }
 
 // ann is the annotation carried by a child reference.
@@ -379,7 +392,7 @@ func (t *truth) curShape(i int, s *slot) string {
 // compare checks a successful library result against the truth.
 // times are the query instants for the time-travel clause.
 func (t *truth) compare(p *parents, times []time.Time, out []finding) []finding {
-	pre := t.sp.name() + "/" + t.v.key() + "/"
+	pre := t.sp.keyPrefix() + "/" + t.v.class() + "/"
 	add := func(clause, shape, what string) {
 		out = append(out, finding{key: clause + "/" + pre + shape, what: what})
 	}
